@@ -15,7 +15,7 @@ static int cmd_compile(int argc, char** argv) {
     // announce before running so that a crash or hang names its input
     th::emit({{"begin", out["i"]}});
     CodegenResult cr;
-    th::watch(out["i"].is_number() ? out["i"].get<long>() : -1, in.value("watch", 120));
+    th::watch(out["i"].is_number() ? out["i"].get<long>() : -1, in.value("watch", 120), in.value("ext", 2));
     th::run_big_stack([&]() { cr = compile(files, mainf); });
     th::unwatch();
     out["ok"] = cr.generated_correctly;
@@ -33,7 +33,11 @@ static int cmd_compile(int argc, char** argv) {
     for (auto& f : files) fl.push_back({{"name", f.first}, {"lines", th::count_lines(f.second)}});
     out["files"] = fl;
     out["main"] = mainf;
-    if (want_prog && cr.generated_correctly) out["prog"] = th::dump_program(cr.code);
+    if (want_prog && cr.generated_correctly) {
+      // listing the program is an observation: on every other input the tables are dumped after Program::disassemble has run
+      if (idx % 2 == 0) { std::ostringstream sink; cr.code.disassemble(sink); out["listed"] = (long)sink.str().size(); }
+      out["prog"] = th::dump_program(cr.code);
+    }
     if (want_digest) out["digest"] = th::digest_of(cr);
     th::emit(out);
   }
